@@ -156,6 +156,25 @@ void Ruleset::prerun(OomdContext& context) {
 
 uint32_t Ruleset::runOnce(OomdContext& context) {
   if (!enabled_) {
+    // A ruleset disabled by a drop-in does not act, but its per-cgroup
+    // instances still belong to their cgroups: drop those whose cgroup is
+    // gone, or a cgroup created under the same name later inherits the
+    // detector windows, pause and suspended chain of its predecessor.
+    if (cgroup_.has_value() && !runnable_rulesets_.empty()) {
+      auto present = std::unordered_set<std::string>();
+      for (const auto& cgroup : cgroup_.value()->resolveWildcard()) {
+        present.insert(cgroup.absolutePath());
+      }
+      for (auto it = runnable_rulesets_.begin();
+           it != runnable_rulesets_.end();) {
+        if (present.contains(it->first)) {
+          ++it;
+          continue;
+        }
+        OLOG << "Dropping runnable ruleset for cgroup: " << it->first;
+        it = runnable_rulesets_.erase(it);
+      }
+    }
     return 0;
   }
   if (!cgroup_.has_value()) {
